@@ -11,6 +11,14 @@ LIB = """package L
   model Mid extends Base; Leaf leaf; Real m; equation m = leaf.x + b + f(b); end Mid;
   model Top Mid mid; Real t; equation t = mid.m; end Top;
 end L;"""
+# a package that uses another package's classes through an unqualified import, listed BEFORE it (deepcopy reaches P first)
+LIB2 = """package P
+  import Q.*;
+  model User Part part; Real u; equation u = part.x; end User;
+end P;
+package Q
+  model Part Real x; equation x = 3; end Part;
+end Q;"""
 EDIT_TARGETS = ["L.Leaf", "L.Base", "L.f"]
 FLATTEN = ["L.Top", "L.Mid", "L.Leaf", "L.f"]
 
@@ -46,23 +54,29 @@ def edit(tree, target, k):
         c.add_equation(ast.Equation(left=ast.ComponentRef(name=list(c.symbols)[0]), right=ast.Primary(value=10 + k)))
 
 
-def judge(hist):
-    """hist: list of steps ('copy', src) | ('edit', tree_index, target). Reference = replaying the edits on fresh parses."""
+def judge(hist, lib=LIB, classes=None):
+    """hist: list of steps ('copy', src) | ('edit', tree_index, target) | ('flatten', tree_index, class: flatten on the tree ITSELF).
+    Reference = replaying the edits on fresh parses."""
     import pymoca.parser
-    trees = [pymoca.parser.parse(LIB)]
+    import pymoca.ast as ast_
+    from pymoca.tree import flatten as flatten_
+    LIB_, FLATTEN_ = lib, (classes or FLATTEN)
+    trees = [pymoca.parser.parse(LIB_)]
     edits = [[]]
     for k, st in enumerate(hist):
         if st[0] == "copy":
             trees.append(copy.deepcopy(trees[st[1]]))
             edits.append(list(edits[st[1]]))
+        elif st[0] == "flatten":
+            flatten_(trees[st[1]], ast_.ComponentRef.from_string(st[2]))
         else:
             edit(trees[st[1]], st[2], k)
             edits[st[1]].append((st[2], k))
     for i, t in enumerate(trees):
-        ref = pymoca.parser.parse(LIB)
+        ref = pymoca.parser.parse(LIB_)
         for target, k in edits[i]:
             edit(ref, target, k)
-        for cls in FLATTEN:
+        for cls in FLATTEN_:
             got, want = dump(t, cls), dump(ref, cls)
             if got != want:
                 return "tree %d (edits %s): flatten(%s) gives %s, a fresh parse with the same edits gives %s" % (i, edits[i], cls, got, want)
@@ -96,6 +110,11 @@ def histories(tier):
         out.append([("copy", 0), ("edit", 1, tgt), ("copy", 1), ("edit", 2, tgt)])
         out.append([("edit", 0, tgt), ("copy", 0), ("copy", 1), ("edit", 1, tgt)])
         out.append([("copy", 0), ("copy", 1), ("edit", 2, tgt), ("edit", 0, "L.Leaf")])
+    # look-ups made while flattening on the tree itself (memoised imports) must not make later copies share classes
+    for tgt in ("Q.Part", "P.User"):
+        out.append(("LIB2", [("flatten", 0, "P.User"), ("copy", 0), ("edit", 1, tgt)]))
+        out.append(("LIB2", [("flatten", 0, "P.User"), ("copy", 0), ("edit", 0, tgt), ("copy", 1), ("edit", 2, tgt)]))
+        out.append(("LIB2", [("copy", 0), ("flatten", 1, "P.User"), ("copy", 1), ("edit", 2, tgt), ("flatten", 0, "P.User"), ("copy", 0), ("edit", 0, tgt)]))
     if tier != "quick":
         for a, b in itertools.product(EDIT_TARGETS, repeat=2):
             out.append([("copy", 0), ("edit", 1, a), ("copy", 1), ("edit", 1, b), ("copy", 0), ("edit", 3, a)])
@@ -108,16 +127,16 @@ def main():
     for h in histories(payload.get("tier", "quick")):
         n += 1
         try:
-            bad = judge(h)
+            bad = judge(h[1], LIB2, ["P.User", "Q.Part"]) if isinstance(h, tuple) else judge(h)
         except BaseException as e:  # noqa
             bad = "%s: %s" % (type(e).__name__, str(e)[:150])
         if bad:
-            failures.append({"class": "copy-history", "input": [list(s) for s in h], "observed": bad, "expected": "every tree flattens like a fresh parse with exactly its own edits"})
+            failures.append({"class": "copy-history", "input": ([h[0]] + [list(s) for s in h[1]]) if isinstance(h, tuple) else [list(s) for s in h], "observed": bad, "expected": "every tree flattens like a fresh parse with exactly its own edits"})
             if len(failures) >= 3:
                 break
     if payload.get("mode") == "bounded":
         print(json.dumps({"performed": True, "cases": n, "distinct_nontrivial": n, "failures": failures,
-                          "rule": "histories of deepcopy (incl. copies of copies) and add_symbol/add_equation edits on a model, a base class and a function of a real library; every tree is flattened (4 classes that reach the edited ones through components, extends and calls) and compared with a fresh parse carrying exactly that tree's edits; parents must lie inside the tree",
+                          "rule": "histories of deepcopy (incl. copies of copies) and add_symbol/add_equation edits on a model, a base class and a function of a real library; every tree is flattened (4 classes that reach the edited ones through components, extends and calls) and compared with a fresh parse carrying exactly that tree's edits; a second library with an unqualified import (importing package listed first) is flattened ON the tree before it is copied; parents must lie inside the tree",
                           "bound": "%d histories" % n}))
     else:
         f = failures[0] if failures else None
